@@ -198,14 +198,49 @@ func runDutyDB(t *testing.T, rt *rapid.T, k valgen.Kind, seed int64) (bool, stri
 	if err != nil {
 		return false, "clone"
 	}
+	// two readers are already waiting when the value arrives (queries that block are answered by the store,
+	// on another path than queries that find the value present)
+	type early struct {
+		v   any
+		err error
+	}
+	earlyCh := make(chan early, 2)
+	if await == nil { // a kind the duty store has no query for (it refuses to store it, below)
+		if err := db.Store(ctx, duty, core.UnsignedDataSet{pk(1): v}); err != nil {
+			return false, "store: " + firstWords(err)
+		}
+		rt.Fatalf("HARNESS-ERROR: %s was stored but the harness has no query for it", k.Name)
+	}
+	for i := 0; i < 2; i++ {
+		go func() {
+			r, err := await()
+			earlyCh <- early{r, err}
+		}()
+	}
+	time.Sleep(2 * time.Millisecond) // let them block (if one has not yet, it is simply served like a later reader)
 	if err := db.Store(ctx, duty, core.UnsignedDataSet{pk(1): v}); err != nil {
+		cancel()
+		<-earlyCh
+		<-earlyCh
 		return false, "store: " + firstWords(err)
 	}
+	e1, e2 := <-earlyCh, <-earlyCh
+	if e1.err != nil || e2.err != nil {
+		rt.Fatalf("dutydb %s: a reader that was waiting when the value was stored got an error: %v %v", k.Name, e1.err, e2.err)
+	}
+	mustDisjoint(rt, "dutydb "+k.Name+": two readers that were waiting when the value was stored", e1.v, e2.v)
+	mustDisjoint(rt, "dutydb "+k.Name+": Store argument and the result of a reader that was waiting", v, e1.v)
+	earlyPristine := render(e2.v)
+	valgen.Scribble(e1.v)
+	mustSame(rt, "dutydb "+k.Name+": result of one waiting reader after the other waiting reader mutated its own", earlyPristine, e2.v)
 	r0, err := await()
 	if err != nil {
 		rt.Fatalf("HARNESS-ERROR: await after store: %v", err)
 	}
 	pristine := render(r0)
+	if pristine != earlyPristine {
+		rt.Fatalf("ISOLATION: dutydb %s: a reader after the store sees other content than the readers that were waiting (one of which mutated its own copy)\n waiting: %.300s\n later: %.300s", k.Name, earlyPristine, pristine)
+	}
 	// (1) caller mutates what it handed in
 	refs := len(valgen.Walk(v))
 	valgen.Scribble(&v)
